@@ -51,6 +51,7 @@ func (u *Universe) verifyFunc(fi *FuncInfo) (obls []*Obl, rep FuncReport) {
 		}
 	}()
 	e.numberSites(fi.Decl.Body)
+	e.owned = e.ownedSlices(fi.Decl.Body)
 	st := newState()
 	assigned := e.assignedIn(fi.Decl.Body)
 	e.entryEnv = map[string]Val{}
@@ -104,6 +105,9 @@ func (u *Universe) verifyFunc(fi *FuncInfo) (obls []*Obl, rep FuncReport) {
 		resNames = con.Results
 	}
 	e.retVars = rvars
+	if sig, ok := fi.Obj.Type().(*types.Signature); ok {
+		e.curRes = resTypesOf(sig.Results())
+	}
 	// ghost state
 	for _, g := range u.cs.Ghosts {
 		st.ghost[g.Name] = e.ghostInit(g, st, true)
@@ -115,6 +119,10 @@ func (u *Universe) verifyFunc(fi *FuncInfo) (obls []*Obl, rep FuncReport) {
 	rc := &ctx{st: st, env: e.entryEnv, spec: true, noOblig: true, pkg: e.pkg, scopePos: fi.Decl.Body.Lbrace + 1, bound: map[string]Val{}}
 	for _, r := range con.Requires {
 		st.assume(e.specBool(r.Expr, rc))
+	}
+	for _, f := range con.Facts {
+		st.assume(e.specBool(f.Expr, rc))
+		e.noteAssumed("fact " + f.Label + " (backed by the ground obligation of that name): " + f.Src)
 	}
 	e.entry = st.clone()
 	// vacuity: the preconditions must be satisfiable
@@ -163,13 +171,10 @@ func (u *Universe) verifyFunc(fi *FuncInfo) (obls []*Obl, rep FuncReport) {
 	}
 	rep.Paths = nret
 	// finalise
-	lits := e.litDistinct()
 	decls := append([]string(nil), e.decls...)
-	if lits != "" {
-		decls = append(decls, lits)
-	}
 	for _, o := range e.obls {
 		o.Decls = decls
+		o.Lits = e.litList
 		o.Spec = e.specFiles
 		if con.Skip["safety"] && strings.HasPrefix(o.Kind, "safety") {
 			o.Kind = "skipped"
